@@ -109,6 +109,19 @@ class CustomBase(BaseException):
     pass
 
 
+class ReadOnlyError(Exception):
+    """An exception whose attributes cannot be set from Python code (a frozen value object)."""
+
+    def __setattr__(self, name, value):
+        raise AttributeError("%s is read-only" % type(self).__name__)
+
+
+class NotedError(Exception):
+    """An exception class with an attribute of its own called __notes__ that is not a list."""
+
+    __notes__ = "see the operator's handbook"
+
+
 class EmptyErrors(Exception):
     """A failure whose truth value is False (an error collection that happens to be empty, a sentinel error)."""
 
@@ -132,6 +145,12 @@ def make_exception(kind):
         "CustomWithArgs": lambda: CustomWithArgs(7, "detail"),
         "Unprintable": lambda: Unprintable("hidden"),
         "EmptyErrors": lambda: EmptyErrors("no details"),
+        # what a payload gets from a stream or channel of its own whose other side went away
+        "TrioClosedResourceError": lambda: __import__("trio").ClosedResourceError("the payload's own channel was closed"),
+        "TrioBrokenResourceError": lambda: __import__("trio").BrokenResourceError("the payload's own peer went away"),
+        "TrioEndOfChannel": lambda: __import__("trio").EndOfChannel("the payload's own channel ended"),
+        "ReadOnlyError": lambda: ReadOnlyError("frozen"),
+        "NotedError": lambda: NotedError("noted"),
         "StopIteration": lambda: StopIteration("stop"),
         "StopAsyncIteration": lambda: StopAsyncIteration("stop"),
         "TimeoutError": lambda: TimeoutError("timed out"),
@@ -645,7 +664,12 @@ async def run_async(world, pspec, args, kwargs):
                 do_adopt(world, clone["id"], by=pid)
             if cleanup["kind"] == "shielded" and flavour == "trio":
                 with trio.CancelScope(shield=True):
-                    if cleanup.get("execute_mid"):
+                    if cleanup.get("shutdown_mid"):
+                        # the cleanup asks for an orderly shutdown of the whole runtime, from a helper thread, and waits for it
+                        await trio.sleep(cleanup["dur"] / 2)
+                        await trio.to_thread.run_sync(do_shutdown, world, pid + "/cleanup")
+                        await trio.sleep(cleanup["dur"] / 2)
+                    elif cleanup.get("execute_mid"):
                         # the cleanup needs something done in the other loop (flush a buffer, deregister): a blocking call half way through
                         await trio.sleep(cleanup["dur"] / 2)
                         do_execute(world, cleanup["execute_mid"], by=pid)
@@ -863,6 +887,11 @@ def dress(inner, how, prefix=None):
         def __repr__(self):
             return "<Job %s>" % inner.__name__
 
+    if how == "unhashable":
+        # a callable object with value equality and therefore no hash (a plain dataclass with __call__)
+        Job.__eq__ = lambda self, other: type(self) is type(other)
+        Job.__hash__ = None
+        return Job()
     if how == "object":
         return Job()
     if how == "method":
@@ -870,7 +899,7 @@ def dress(inner, how, prefix=None):
     raise AssertionError("unknown kind of callable %r" % (how,))
 
 
-CALLABLE_KINDS = ["function", "lambda", "wrapped", "partial", "object", "method", "prefixed", "marked"]
+CALLABLE_KINDS = ["function", "lambda", "wrapped", "partial", "object", "method", "prefixed", "marked", "unhashable"]
 
 
 # ------------------------------------------------------------------------------ driver thread
